@@ -792,6 +792,11 @@ func evalFunc(env any, name string, args []object.Object) object.Object {
 	str := args[0].(object.String).Value
 	s := env.(*eval.State)
 	res, err := eval.EvalString(s, str, name == "unjson" /* empty env */)
+	if res != nil && res.Type() == object.ERROR {
+		// An evaluation error is returned as is: wrapping it again at every level of a recursion going
+		// through eval() made the messages, and the time to unwind, quadratic in the depth.
+		return res
+	}
 	if err != nil {
 		return s.Error(err)
 	}
